@@ -98,9 +98,18 @@ TSPrepare ==
   /\ st' = [st EXCEPT ![Ev.rep + 10] = st[Ev.rep]]
   /\ hi' = [hi EXCEPT ![Ev.rep + 10] = hi[Ev.rep]]
 
+\* traces of the repository's own tests (vdrive kvtrace): the store an instance shows after RecoverFromSnapshot (where the
+\* snapshot comes from is not traced); the updates that follow are judged against it
+TAdopt ==
+  /\ IsEvent("adopt")
+  /\ Len(Ev.pairs) = Cardinality({Ev.pairs[i].k : i \in 1..Len(Ev.pairs)})
+  /\ st' = [st EXCEPT ![Ev.rep] = [k \in {Ev.pairs[i].k : i \in 1..Len(Ev.pairs)} |->
+                LET p == Ev.pairs[CHOOSE i \in 1..Len(Ev.pairs) : Ev.pairs[i].k = k] IN [val |-> p.val, ver |-> p.ver]]]
+  /\ hi' = [hi EXCEPT ![Ev.rep] = Ev.hi]
+
 TReset == IsEvent("reset") /\ st' = [r \in Reps |-> EmptyStore] /\ hi' = [r \in Reps |-> 0]
 
-TNext == TUpdate \/ TRSet \/ TRDel \/ TGet \/ TExists \/ TGetAll \/ TList \/ TSnap \/ TSPrepare \/ TReset
+TNext == TUpdate \/ TRSet \/ TRDel \/ TGet \/ TExists \/ TGetAll \/ TList \/ TSnap \/ TSPrepare \/ TAdopt \/ TReset
 TSpec == TInit /\ [][TNext]_vars
 
 TraceAccepted ==
